@@ -169,6 +169,10 @@ def check(case):
         ('penman.interface.loads', lambda: _interface().loads(text, model=m)),
         ('penman.interface.load(path)', lambda: _interface().load(path, model=m, encoding='utf-8')),
     ]
+    import locale
+    if locale.getpreferredencoding(False).lower().replace('-', '') == 'utf8':
+        # no encoding given: the platform default, which is UTF-8 here (a leading U+FEFF stays an ordinary character)
+        containers.append(('filename, default encoding', lambda: penman.load(path, model=m)))
     if len(case['graphs']) * (case.get('repeat') or 1) == 1 and not case.get('bom'):
         containers.append(('decode', lambda: [penman.decode(text, model=m)]))
         containers.append(('codec.decode', lambda: [penman.PENMANCodec(model=m).decode(text)]))
